@@ -202,6 +202,7 @@ static SessionResult session(const std::vector<const Elem *> & seq, const std::v
         }
     }
     if (g_manifest) {
+        blfasm::save(path + ".stream", stream);
         fprintf(g_manifest, "{\"file\":\"%s\",\"level\":%ld,\"cont\":%ld,\"rp\":%ld,\"hp\":%d,\"objects\":%zu,\"counted\":%u,\"stream_len\":%zu,\"stream_fnv\":\"%s\",\"label\":\"%s\",\"writer_count\":%llu,\"writer_usz\":%llu}\n",
                 path.c_str(), level, cont, rp, hp, seq.size(), counted, stream.size(), hex64(fnv64(stream.data(), stream.size())).c_str(),
                 vx::jesc(label).c_str(), (unsigned long long)cnt_after_write, (unsigned long long)usz_after_write);
